@@ -1,89 +1,111 @@
-"""C18 tables: the WEEKDAY tuples per return type (they exist only as an if-chain of tuple literals in
-date.py, so they are read from the source with `ast`), EXCEL_EPOCH and the leap-day pivots of
-utils.number_to_datetime / datetime_to_number are NOT tables (they are modelled by hand)."""
+"""C18 tables: the WEEKDAY numbering per return type, obtained BEHAVIOURALLY.
+
+The tables are what the running code DOES, not how its source is spelt: WEEKDAY is called for seven
+consecutive serials that are a known Monday … Sunday (by Python's own calendar) with the return type omitted
+and with every candidate return type of a window around the documented ones; a candidate for which all seven
+calls return whole numbers becomes a row (indexed Monday = 0 … Sunday = 6, like `date.weekday()`), a candidate
+that answers with an Excel error on all seven days is "not a return type" (#NUM! in the model).  An answer that
+is neither (an exception, a non-integer, an error on some days only) is recorded as the out-of-range entry
+`-999`, so that the Lean table obligation `weekday_tables` fails and the check searches for the failing input.
+A behaviour-preserving rewrite of date.py (if-chain → dict, renamed variables, reworded messages) yields the
+same table.
+
+The source text is still looked at, but only to print an informational note when the literal tuples found
+there differ from the observed behaviour; that part can never fail the translator."""
 import ast
+import datetime
 import inspect
 
 from ._lean import integer, lst
 
-
-def _tuple_of(body):
-    """The value of `weekDays = (…)` in a statement list."""
-    for st in body:
-        if (isinstance(st, ast.Assign) and len(st.targets) == 1 and isinstance(st.targets[0], ast.Name)
-                and st.targets[0].id == 'weekDays'):
-            tup = ast.literal_eval(st.value)
-            if not (isinstance(tup, tuple) and all(isinstance(x, int) for x in tup)):
-                raise ValueError(f'weekDays is not a tuple of ints: {tup!r}')
-            return tup
-    raise ValueError('branch without a weekDays tuple')
+BAD = -999
+# candidate return types: everything near the documented 1, 2, 3, 11 … 17, and a few far ones
+CANDIDATES = list(range(-3, 41)) + [100, 255, 1000]
 
 
-def _indexed_by_weekday(body):
-    """The branch must end in `return weekDays[date.weekday()]` (Monday = 0)."""
-    ret = body[-1]
-    ok = (isinstance(ret, ast.Return) and isinstance(ret.value, ast.Subscript)
-          and isinstance(ret.value.value, ast.Name) and ret.value.value.id == 'weekDays'
-          and ast.unparse(ret.value.slice) == 'date.weekday()')
-    if not ok:
-        raise ValueError('branch does not return weekDays[date.weekday()]: ' + ast.unparse(ret))
+def _probe_week():
+    """serials of a Monday … Sunday, from Python's calendar (1900 date system: ordinal - 693594 from 1900-03-01 on)"""
+    monday = datetime.date(2024, 1, 1)
+    assert monday.weekday() == 0
+    return [(monday + datetime.timedelta(days=i)).toordinal() - 693594 for i in range(7)]
 
 
-def _key_of(test):
-    """`return_type is None` -> None ; `int(return_type) == k` -> k."""
-    src = ast.unparse(test)
-    if src == 'return_type is None':
-        return None
-    if (isinstance(test, ast.Compare) and len(test.ops) == 1 and isinstance(test.ops[0], ast.Eq)
-            and ast.unparse(test.left) == 'int(return_type)'):
-        k = ast.literal_eval(test.comparators[0])
-        if isinstance(k, int):
-            return k
-    raise ValueError(f'unrecognised WEEKDAY branch condition: {src}')
+def _outcome(fn, *args):
+    """('int', k) | ('err', code) | ('bad', description)"""
+    from xlcalculator.xlfunctions import func_xltypes, xlerrors
+    try:
+        r = fn(*args)
+    except Exception as exc:  # noqa: BLE001 - any exception is an observation, not a translator failure
+        return ('bad', type(exc).__name__)
+    if isinstance(r, xlerrors.ExcelError):
+        return ('err', str(r.value))
+    v = r.value if isinstance(r, func_xltypes.Number) else r
+    if isinstance(v, bool):
+        return ('bad', 'bool')
+    if isinstance(v, int):
+        return ('int', v)
+    if isinstance(v, float) and v == int(v):
+        return ('int', int(v))
+    return ('bad', repr(v)[:40])
 
 
 def weekday_tables():
-    from xlcalculator.xlfunctions import date
-    fn = inspect.unwrap(date.WEEKDAY)
-    tree = ast.parse(inspect.getsource(date))
-    fdef = [n for n in tree.body if isinstance(n, ast.FunctionDef) and n.name == 'WEEKDAY']
-    if len(fdef) != 1:
-        raise ValueError('WEEKDAY not found in date.py')
-    chain = [n for n in fdef[0].body if isinstance(n, ast.If)]
-    if len(chain) != 1:
-        raise ValueError('WEEKDAY: expected exactly one if-chain')
-    node, default, rows = chain[0], None, []
-    while True:
-        key = _key_of(node.test)
-        tup = _tuple_of(node.body)
-        _indexed_by_weekday(node.body)
-        if key is None:
-            default = tup
-        else:
-            rows.append((key, tup))
-        if len(node.orelse) == 1 and isinstance(node.orelse[0], ast.If):
-            node = node.orelse[0]
-            continue
-        if not (len(node.orelse) == 1 and isinstance(node.orelse[0], ast.Raise)
-                and 'NumExcelError' in ast.unparse(node.orelse[0])):
-            raise ValueError('WEEKDAY: the chain does not end in raise NumExcelError')
-        break
+    from xlcalculator.xlfunctions import xl
+    import xlcalculator  # noqa: F401
+    fn = xl.FUNCTIONS['WEEKDAY']
+    week = _probe_week()
+
+    def row(*rt):
+        outs = [_outcome(fn, n, *rt) for n in week]
+        if all(o[0] == 'err' for o in outs):
+            return None
+        return tuple(o[1] if o[0] == 'int' else BAD for o in outs)
+
+    default = row()
     if default is None:
-        raise ValueError('WEEKDAY: no branch for an omitted return_type')
-    del fn
+        default = (BAD,) * 7
+    rows = []
+    for k in CANDIDATES:
+        t = row(k)
+        if t is not None:
+            rows.append((k, t))
     return default, rows
+
+
+def source_note(default, rows):
+    """informational only: compare with tuple literals found in the source of date.py (never raises)"""
+    try:
+        from xlcalculator.xlfunctions import date
+        tree = ast.parse(inspect.getsource(date))
+        found = set()
+        for node in ast.walk(tree):
+            if isinstance(node, ast.Tuple) and len(node.elts) == 7:
+                try:
+                    t = ast.literal_eval(node)
+                except Exception:  # noqa: BLE001
+                    continue
+                if all(isinstance(x, int) and not isinstance(x, bool) for x in t):
+                    found.add(t)
+        observed = {default} | {t for _, t in rows}
+        if found and not observed <= found:
+            print('extract: note (c18_date): observed WEEKDAY rows that are not tuple literals of date.py: '
+                  + ', '.join(map(str, sorted(observed - found))))
+    except Exception as exc:  # noqa: BLE001
+        print(f'extract: note (c18_date): source of date.py not inspected ({type(exc).__name__})')
 
 
 def emit():
     default, rows = weekday_tables()
+    source_note(default, rows)
 
     def tup(t):
         return '[' + ', '.join(integer(x) for x in t) + ']'
     body = f'''namespace XlVerif.Gen
-/-- `WEEKDAY` with `return_type` omitted: the tuple indexed by `date.weekday()` (Monday = 0). -/
+/-- `WEEKDAY` with `return_type` omitted, observed on a Monday … Sunday (index = `date.weekday()`). -/
 def weekdayDefault : List Int := {tup(default)}
-/-- `WEEKDAY`: the `elif int(return_type) == k: weekDays = (…)` chain, in source order;
-    any other return type raises `#NUM!`. -/
+/-- `WEEKDAY(serial, k)` observed on a Monday … Sunday for every candidate `k` that is answered with numbers
+    (ascending `k`); every other candidate of the probed window answers with an Excel error (`#NUM!` in the
+    model).  `{BAD}` marks an answer that is neither a whole number nor an Excel error. -/
 def weekdayTables : List (Int × List Int) := {lst([f'({integer(k)}, {tup(t)})' for k, t in rows])}
 end XlVerif.Gen
 '''
